@@ -669,7 +669,9 @@ def jump_targets(ck, F):
     g = F.one("Program::goto_line_number")
     h = F.one("Program::has_line_number")
     if g is not None and h is not None:
-        ck.require(bool(g.calls_to("ProgramLines::has")) and bool(h.calls_to("ProgramLines::has")), "C06:JUMP:same-test", "jump targets",
+        from lib import line_membership_tests
+        tests = line_membership_tests(F)
+        ck.require(any(c.callee in tests for c in g.calls()) and any(c.callee in tests for c in h.calls()), "C06:JUMP:same-test", "jump targets",
                    "both sides test membership with ProgramLines::has", "the two forks test jump targets differently", g.span)
     gs = F.one("Program::gosub_line_number")
     if gs is not None:
